@@ -15,7 +15,16 @@ character, option letter, exit code or caller option breaks a pin):
   robsd-regress-log.c main             getopt string, option -> flag table, the exit codes 2 / 1 / 0, the separator handling
   util-regress.sh regress_failed       the option string given to robsd-regress-log
   util.sh step_exec                    the mode test and the status written when regress_failed succeeds
+  util.sh step_exec_job                the return value of step_exec goes unchanged into step_write -e and the hook (pinned as text)
   regress-html.c parse_run_log         the status decision chain; FOR_RUN_STATUSES failure flags; EX_TIMEOUT
+  regress_log_trim                     the whole body, statement by statement: initial xbeg / xend, the leading-trace skip, the
+                                       xend update of a trace line (guarded by `xend == 0` or not), the reset on every other line,
+                                       the line terminator, the final "%.*s" length.  The variants the pattern knows become the
+                                       constants trim_* (RegressLog/RLTrimTie.v: trim = the generic loop read with them; a variant
+                                       breaks C13_tie_trim only); anything else raises.
+  report.c regress_report_skip_step    the flags given to regress_log_peek, the suite / quiet test, the return values
+  report.c regress_report_step_log     the flags given to regress_log_parse (always / unless quiet), the rv > 0 / rv < 0 decisions
+  report.c number_of_failures_...      failures are counted from the exit field alone (pinned as text)
 
 Every pattern raises when it no longer matches."""
 import os, re
@@ -93,6 +102,45 @@ HTML_CHAIN = re.compile(
     r'else if \(run->exit != 0\) \{ \*status = regress_log_peek\(src_path, REGRESS_LOG_([A-Z]+)\) > 0 \? ([A-Z]+) : ([A-Z]+); \} '
     r'((?:else if \(regress_log_peek\(src_path, REGRESS_LOG_[A-Z]+\) > 0\) \{ \*status = [A-Z]+; \} )*)'
     r'else \{ \*status = ([A-Z]+); \}')
+
+# regress_log_trim, whole normalised body; groups: xbeg init, xend init, leading skip, `xend == 0` guard, else-reset,
+# line terminator, the length expression
+TRIM = re.compile(
+    r'^struct buffer \*bf, \*rd; struct buffer_getline it = \{0\}; size_t xbeg = (\d+); size_t xend = (\d+); '
+    r'rd = buffer_read\(path\); if \(rd == NULL\) return -1; buffer_reset\(out\); '
+    r'bf = buffer_alloc\(1 << 20\); if \(bf == NULL\) err\(1, NULL\); '
+    r'for \(;;\) \{ const char \*line; line = buffer_getline\(rd, &it\); if \(line == NULL\) break; '
+    r'(if \(xbeg != 0 && isxtrace\(line\)\) continue; xbeg = 0; )?'
+    r'if \(isxtrace\(line\)\) \{ (if \(xend == 0\) )?xend = buffer_get_len\(bf\); \}( else \{ xend = 0; \})? '
+    r"buffer_puts\(bf, line, strlen\(line\)\); buffer_putc\(bf, '([^']|\\.)'\); \} "
+    r'buffer_printf\(out, "%\.\*s", \(int\)\((xend \? xend : buffer_get_len\(bf\)|buffer_get_len\(bf\))\), buffer_get_ptr\(bf\)\); '
+    r'buffer_free\(bf\); buffer_getline_free\(&it\); buffer_free\(rd\); return 1;$')
+
+REPORT_SKIP = re.compile(
+    r'^const char \*log_path, \*name; arena_scope\(r->scratch, s\); name = step_get_field\(step, "name"\)->str; '
+    r'if \(!is_regress_step\(r, name\) \|\| is_regress_quiet\(r, name\)\) return 1; '
+    r'log_path = step_get_log_path\(r, step, &s\); '
+    r'if \(log_path == NULL\) \{ warnx\("[^"]*", name\); return -1; \} '
+    r'if \(regress_log_peek\(log_path, ((?:REGRESS_LOG_[A-Z]+(?: \| )?)+)\) > 0\) return 0; return 1;$')
+REPORT_LOG = re.compile(
+    r'regress_log_flags = ((?:REGRESS_LOG_[A-Z]+(?: \| )?)+); '
+    r'if \(!is_regress_quiet\(r, name\)\) regress_log_flags \|= ((?:REGRESS_LOG_[A-Z]+(?: \| )?)+); '
+    r'rv = regress_log_parse\(log_path, bf, regress_log_flags\); '
+    r"if \(rv > 0\) \{ buffer_putc\(r->out, '\\n'\); buffer_puts\(r->out, buffer_get_ptr\(bf\), buffer_get_len\(bf\)\); "
+    r'return STEP_LOG_HANDLED; \} if \(rv < 0\) (?:return STEP_LOG_ERROR;|\{ warn\("%s", log_path\); return STEP_LOG_ERROR; \}) '
+    r'return STEP_LOG_UNHANDLED;$')      # the error branch with or without its diagnostic (a later fix: in /repo added the warn)
+REPORT_COUNT = ('for (i = 0; i < nsteps; i++) { if (step_get_field(&steps[i], "exit")->integer != 0) nfailures++; } '
+                'if (nfailures > 0) {')
+
+
+def flag_list(expr, where):
+    fs = re.findall(r'REGRESS_LOG_([A-Z]+)', expr)
+    for f in fs:
+        if f not in FLAGS:
+            raise ValueError('%s: unknown or non-selection flag REGRESS_LOG_%s' % (where, f))
+    if not fs or len(set(fs)) != len(fs):
+        raise ValueError('%s: empty or repeated flag set %r' % (where, expr))
+    return '[%s]' % '; '.join('GF_' + f for f in fs)
 
 
 def generate(repo):
@@ -230,6 +278,18 @@ def generate(repo):
         raise ValueError('util.sh step_exec: body changed: %r' % se[-500:])
     if g.group(1) != '0':
         raise ValueError('util.sh step_exec: the status file no longer starts at 0')
+    # step_exec_job: what step_exec returns is what is recorded and what the hook gets (pinned as text; the bridge
+    # RegressLog/RLOrchBridge.v instantiates the free exit status of the orchestrator models with step_exec's value)
+    m = re.search(r'^step_exec_job\(\) \{\n(.*?)^\}\n', us, re.S | re.M)
+    if not m:
+        raise ValueError('util.sh: step_exec_job not found')
+    sj = [l.strip() for l in m.group(1).splitlines()]
+    hand_over = ['local _exit=0', 'step_exec -l "${_builddir}/${_log}" -s "${_name}" || _exit="$?"',
+                 'step_write -l "${_log}" -s "${_id}" -n "${_name}" -e "${_exit}" -d "${_d1}" \\',
+                 'robsd_hook -v "step-exit=${_exit}" -v "step-name=${_name}"']
+    pos = [sj.index(l) if sj.count(l) == 1 else -1 for l in hand_over]
+    if -1 in pos or pos != sorted(pos) or m.group(1).count('_exit=') != 2:
+        raise ValueError('util.sh step_exec_job: the status of step_exec is no longer handed unchanged to step_write -e and the hook')
     hs = rd('regress-html.c')
     eh = rd('step-exec.h')
     mt = re.findall(r'^#define\s+EX_TIMEOUT\s+(\d+)\s*$', eh, re.M)
@@ -269,6 +329,36 @@ def generate(repo):
             'Definition html_zero_chain : list (gflag * list N) := [%s].   (* %s *)' % (
                 '; '.join('(GF_%s, %s)' % (f, coq_bytes(s)) for f, s in zero), ', '.join('%s -> %s' % fs for fs in zero)),
             'Definition html_zero_default : list N := %s.   (* %s *)' % (coq_bytes(mc.group(6)), mc.group(6))]
+    # ---- report.c: the extractor's caller in the report
+    rp = rd('report.c')
+    m = REPORT_SKIP.match(norm(func_body(rp, 'regress_report_skip_step', 'report.c')))
+    if not m:
+        raise ValueError('report.c regress_report_skip_step: body changed: %r' % norm(func_body(rp, 'regress_report_skip_step', 'report.c'))[-300:])
+    ml = REPORT_LOG.search(norm(func_body(rp, 'regress_report_step_log', 'report.c')))
+    if not ml:
+        raise ValueError('report.c regress_report_step_log: the flags / rv decisions changed')
+    if norm(func_body(rp, 'number_of_failures_report_status', 'report.c')).count(REPORT_COUNT) != 1:
+        raise ValueError('report.c number_of_failures_report_status: failures are no longer counted from the exit field alone')
+    out += ['', '(* report.c regress_report_skip_step: a regress row with exit 0 gets a section iff regress_log_peek with these flags is > 0 *)',
+            'Definition report_peek_flags : list gflag := %s.' % flag_list(m.group(1), 'report.c regress_report_skip_step'),
+            '(* report.c regress_report_step_log: flags given to regress_log_parse: always, and in addition unless the suite is quiet *)',
+            'Definition report_log_flags : list gflag := %s.' % flag_list(ml.group(1), 'report.c regress_report_step_log'),
+            'Definition report_log_flags_unless_quiet : list gflag := %s.' % flag_list(ml.group(2), 'report.c regress_report_step_log')]
+    # ---- regress_log_trim (kept LAST: Properties_C13.C13_tie_trim is the last tie)
+    tb = norm(func_body(src, 'regress_log_trim', 'regress-log.c'))
+    m = TRIM.match(tb)
+    if not m:
+        raise ValueError('regress-log.c regress_log_trim: body changed (no known variant): %r' % tb)
+    out += ['', '(* regress_log_trim: initial xbeg / xend; the leading trace lines are passed over; on a trace line xend is set to the',
+            '   length collected so far only while it is 0 (true) or every time (false); every other line resets it to 0;',
+            '   the byte appended after every kept line; the final copy stops at xend when xend is not 0 *)',
+            'Definition trim_xbeg_init : nat := %s.' % m.group(1),
+            'Definition trim_xend_init : nat := %s.' % m.group(2),
+            'Definition trim_skip_lead : bool := %s.' % ('true' if m.group(3) else 'false'),
+            'Definition trim_xend_set_once : bool := %s.' % ('true' if m.group(4) else 'false'),
+            'Definition trim_xend_reset : bool := %s.' % ('true' if m.group(5) else 'false'),
+            'Definition trim_line_end : N := %d%%N.' % c_char(m.group(6), 'regress_log_trim'),
+            'Definition trim_cut_at_xend : bool := %s.' % ('true' if m.group(7).startswith('xend ?') else 'false')]
     return {'Gen_RegressLog.v': '\n'.join(out) + '\n'}
 
 
